@@ -54,6 +54,29 @@ def gen_case(rng, nops, mdib_file=FILE):
     return {'mdib': mdib_file, 'consumer': True, 'role_hooks': True, 'ops': ops}
 
 
+def crafted_cases():
+    """fixed histories that alternate the two ways a state gets associated (set_location vs a SetContextState proposal)
+    on the same descriptor, re-associate old states and mix both descriptors"""
+    out = []
+    for f, op_handle in FILES.items():
+        def sc(props, multi=False):
+            o = {'k': 'setctx', 'dh': DH, 'op_handle': op_handle, 'proposals': props}
+            if multi:
+                o['multi'] = True
+            return o
+        out.append({'mdib': f, 'consumer': True, 'role_hooks': True, 'crafted': 'location-vs-proposal', 'ops': [
+            {'k': 'location', 'n': 1}, sc([[None, 'Assoc', 2, LH]]), {'k': 'location', 'n': 3},
+            sc([[['nth', 0], 'Assoc', 4, LH]]), {'k': 'location', 'n': 5}, sc([[None, 'Pre', 6, LH]]),
+            sc([[['nth', 2], 'Assoc', 7, LH]]), {'k': 'location', 'n': 8}, sc([[['nth', 1], 'Dis', 9, LH]]),
+            {'k': 'location', 'n': 10}]})
+        out.append({'mdib': f, 'consumer': True, 'role_hooks': True, 'crafted': 'patient-reassociation', 'ops': [
+            sc([[None, 'Assoc', 1, DH]]), sc([[None, 'Pre', 2, DH]]), sc([[['nth', 0], None, 3, DH]]),
+            sc([[None, 'Assoc', 4, DH]]), sc([[['nth', 0], 'Assoc', 5, DH]]), sc([[['nth', 1], 'Assoc', 6, DH]]),
+            sc([[['nth', 2], 'No', 7, DH]]), sc([[['nth', 2], 'Assoc', 8, DH]]), {'k': 'location', 'n': 9},
+            sc([[['nth', 0], 'Assoc', 10, DH], [None, 'Assoc', 11, LH]], multi=True)]})
+    return out
+
+
 def oracle(case, result):
     """C10 evaluated directly on the provider's context table after every operation"""
     tb = Tables(result['init']['prov'])
@@ -165,6 +188,8 @@ def run(ctx):
     cases = [gen_case(random.Random(ctx.rng.getrandbits(48)), random.Random(i).randint(max(3, nops // 2), nops),
                       FILE if i % 3 else 'mdib_two_mds.xml')
              for i in range(ncases)]
+    crafted = crafted_cases()
+    cases = crafted + cases[:max(0, len(cases) - len(crafted))]
     batches = [cases[i:i + 6] for i in range(0, len(cases), 6)]
     with ThreadPoolExecutor(max_workers=12) as ex:
         outs = list(ex.map(lambda b: ctx.impl('mdib_impl', {'cases': b}, timeout=900), batches))
